@@ -57,6 +57,7 @@ def run(chk):
         r14_3(chk, cr, fx, methods, writes, mutators, memos)
     if chk.want("R14.4"):
         r14_4(chk, cr, methods, memos)
+        getter_call_arguments(chk, cr, memos)
     if chk.want("R14.5"):
         r14_5(chk, cr, mutators, fx)
     if chk.want("R14.6"):
@@ -296,6 +297,62 @@ def r14_4(chk, cr, methods, memos):
         other = sorted(r for r in reads if r not in allowed and r not in cls_names)
         chk.ob("R14.4", CR, f"Crystal.{g}", "the memoised value reads no mutable attribute besides the three state fields",
                not other, node=fn, fingerprint="reads", found=other)
+
+
+def getter_call_arguments(chk, cr, memos):
+    """The memo of a getter answers every later call whatever its arguments (that staleness is excluded by the property: 'each query always
+    issued with the same arguments').  The library's own call sites must then issue the query with the arguments everybody else uses -- the
+    defaults: a constant argument equals the getter's default, a forwarded one is the caller's parameter of the same name and default."""
+    getters = {}
+    for g, _ in memos.values():
+        fn = cr.funcs.get(f"Crystal.{g}")
+        if fn is None:
+            continue
+        names = [a.arg for a in fn.args.args][1:]
+        dfl = {}
+        for a, d in zip(fn.args.args[len(fn.args.args) - len(fn.args.defaults):], fn.args.defaults):
+            dfl[a.arg] = d
+        getters[g] = (names, dfl)
+    n = 0
+    for rel in chk.repo.all_py():
+        try:
+            mod = chk.repo.module(rel)
+        except Exception:      # noqa: BLE001
+            continue
+        for qual, fn in mod.funcs.items():
+            pdefaults = {}
+            pa = fn.args.args
+            for a, d in zip(pa[len(pa) - len(fn.args.defaults):], fn.args.defaults):
+                pdefaults[a.arg] = d
+            for node in ast.walk(fn):
+                if not (isinstance(node, ast.Call) and isinstance(node.func, ast.Attribute) and node.func.attr in getters):
+                    continue
+                names, dfl = getters[node.func.attr]
+                given = [(names[i], v) for i, v in enumerate(node.args) if i < len(names) and not isinstance(v, ast.Starred)]
+                given += [(k.arg, k.value) for k in node.keywords if k.arg is not None]
+                for name, v in given:
+                    if name not in dfl:
+                        continue
+                    want = ast.dump(dfl[name])
+                    ok = None
+                    if isinstance(v, ast.Constant) or (isinstance(v, ast.UnaryOp) and isinstance(v.operand, ast.Constant)):
+                        try:
+                            ok = ast.literal_eval(v) == ast.literal_eval(dfl[name])
+                        except Exception:      # noqa: BLE001
+                            ok = ast.dump(v) == want
+                    elif isinstance(v, ast.Name) and v.id in pdefaults:
+                        try:
+                            ok = ast.literal_eval(pdefaults[v.id]) == ast.literal_eval(dfl[name])
+                        except Exception:      # noqa: BLE001
+                            ok = ast.dump(pdefaults[v.id]) == want
+                    if ok is None:
+                        continue
+                    n += 1
+                    chk.ob("R14.4", rel, qual, f"the memoised query {node.func.attr}() is issued with the arguments every other caller uses: "
+                           f"{name} has the getter's default", ok, node=node, fingerprint=f"getter-arg:{node.func.attr}:{name}",
+                           expected=f"{name}={ast.unparse(dfl[name])}", found=f"{name}={ast.unparse(v)}" +
+                           (f" (default {ast.unparse(pdefaults[v.id])})" if isinstance(v, ast.Name) and v.id in pdefaults else ""))
+    return n
 
 
 def r14_5(chk, cr, mutators, fx):
